@@ -215,6 +215,9 @@ pub fn c08_sources() -> Vec<(&'static str, String, Option<String>)> {
         ("tuple-struct-2-one-field-serde-skipped", s("#[typeshare]\npub struct Good {\n    pub a: u32,\n}\n\n#[typeshare]\npub struct Outer(pub String, #[serde(skip)] pub u32);\n"), None),
         ("tuple-struct-3-two-fields-typeshare-skipped", s("#[typeshare]\npub struct Good {\n    pub a: u32,\n}\n\n#[typeshare]\npub struct Outer(#[typeshare(skip)] pub u32, pub String, #[typeshare(skip)] pub bool);\n"), None),
         ("tuple-variant-2-one-field-skipped", s("#[typeshare]\npub struct Good {\n    pub a: u32,\n}\n\n#[typeshare]\n#[serde(tag = \"t\", content = \"c\")]\npub enum Outer {\n    A(String, #[serde(skip)] u32),\n    B,\n}\n"), None),
+        // two annotated items of one name in one file, the unsupported construct in the later one
+        ("same-name-twice-later-one-bad", s("#[typeshare]\npub struct Good {\n    pub a: u32,\n}\n\npub mod v1 {\n    #[typeshare]\n    pub struct Outer {\n        pub a: u32,\n    }\n}\npub mod v2 {\n    #[typeshare]\n    pub struct Outer {\n        pub a: u64,\n    }\n}\n"), None),
+        ("earlier-item-renamed-to-the-later-bad-one", s("#[typeshare]\n#[serde(rename = \"Outer\")]\npub struct Good {\n    pub a: u32,\n}\n\n#[typeshare]\npub struct Outer(pub u32, pub String);\n"), None),
         ("serialized-as-i64", s("#[typeshare]\npub struct Good {\n    pub a: u32,\n}\n\n#[typeshare]\npub struct Outer {\n    #[typeshare(serialized_as = \"i64\")]\n    pub t: u32,\n}\n"), None),
     ]
 }
